@@ -69,6 +69,42 @@ def sub_positions(t, v):
         yield from sub_positions(t[1], v)
 
 
+def exotic_oracle(rep, types):
+    """data outside the model's value type (instances of subclasses of the builtin data types, views, one-shot iterables):
+    strict acceptance implies lax acceptance with an equal value (union-free types), and a scalar target (int, float, str,
+    bool, None) accepts under strict coercion only instances of exactly the documented types"""
+    import re
+    rts = {(sc, m): lg.retort(sc, m) for sc in (True, False) for m in lg.MODES}
+    exo = lg.exotic_values()
+    n = 0
+    reported = set()
+    exact = {"TInt": (int,), "TFloat": (float, int), "TStr": (str,), "TBool": (bool,), "TNone": (type(None),)}
+    for t in types:
+        if "TUser" in repr(t):
+            continue
+        for name, make in exo:
+            for m in lg.MODES:
+                s = lg.run_exotic(rts[(True, m)], t, make)
+                l = lg.run_exotic(rts[(False, m)], t, make)
+                n += 2
+                bad = None
+                if s[0] == "ok" and l[0] != "ok":
+                    bad = "accepted with strict_coercion=True but rejected with strict_coercion=False"
+                elif s[0] == "ok" and union_free(t):
+                    canon = [re.sub(r"( at )?0x[0-9a-f]+", "", repr(o[1])) + "|" + type(o[1]).__name__ for o in (s, l)]
+                    if canon[0] != canon[1]:
+                        bad = "strict and lax coercion load the same datum to different values (no union involved)"
+                if s[0] == "ok" and t[0] in exact and type(make()) not in exact[t[0]]:
+                    bad = f"strict mode accepted an instance of {type(make()).__name__} for {t[0][1:].lower()}: outside the allowed strict origins"
+                sig = f"exotic:{t[0]}:{name.split(':')[0]}"
+                if bad and sig not in reported and len(reported) < 8:
+                    reported.add(sig)
+                    rep.violation(sig, "property-violated",
+                                  {"what": bad, "type": t, "py_type": repr(lg.py_ty(t)), "datum": name, "datum_repr": repr(make())[:120],
+                                   "mode": m, "strict": repr(s)[:200], "lax": repr(l)[:200]})
+    return n
+
+
 def run(rep, tier, seed):
     proof = lib.proof_stage(rep, PID)
     r = random.Random(seed)
@@ -114,8 +150,14 @@ def run(rep, tier, seed):
                                       {"what": "strict mode accepted a datum outside the documented allowed strict origins",
                                        "type": t, "datum": v, "mode": lg.MODES[mi], "position_type": tt, "position_datum": vv,
                                        "strict": s})
+    seen_t, exo_types = set(), [("TInt",), ("TFloat",), ("TStr",), ("TBool",), ("TNone",)]
+    for t, _ in base:
+        if repr(t) not in seen_t:
+            seen_t.add(repr(t))
+            exo_types.append(t)
+    n_exo = exotic_oracle(rep, exo_types[:100 if tier == "quick" else 1500])
     rep.cov.update({
-        "evaluations": len(cases), "pairs_checked": n_pair,
+        "evaluations": len(cases) + n_exo, "pairs_checked": n_pair,
         "distinct_nontrivial": len({repr(b) for b in base if b[0][0] not in ("TInt", "TStr", "TBool", "TNone", "TAny", "TFloat")}),
         "rule": "types of depth <= 3 (scalars, Literal, iterables incl. abstract collections, fixed tuples, dict/Mapping, "
                 "Optional, Union) x 7 data per type (25% junk look-alikes) plus directed Literal bool/int look-alikes and "
